@@ -8,6 +8,7 @@ CONSTANTS
   OptSet <- OptsCore
   AbortCancels = TRUE
   GenChecksCtx = TRUE
+  GenEofByIs = FALSE
   ResolverSame = TRUE
   ExcludedConsulted = TRUE
   Mut = "skipreported"
